@@ -168,7 +168,10 @@ func (t *fnTrans) builtin(b *ssa.Builtin, c *ssa.CallCommon, res ssa.Value, pos 
 		t.mapDelete(arg(0), arg(1), mt)
 		return Val{}
 	case "close":
-		t.assumptions["close(chan) at "+t.posStr(pos)+": closing is not tracked"] = true
+		// close(c): recorded in the ghost flag closed(c)
+		cx := t.chanClosedVar(c.Args[0].Type())
+		t.set(cx.Name, fmt.Sprintf("(store %s %s true)", t.get(t.cur, cx.Name), arg(0)))
+		t.assumptions["close(chan): closing a nil or an already closed channel (run-time panics) is not checked"] = true
 		return Val{}
 	case "print", "println":
 		return Val{}
